@@ -35,7 +35,7 @@ def own(path):
     """A copy of a probe library that belongs to this worker alone (made once per worker): two workers never open the same
     library file, so whatever a process does to the file it loads (locks, descriptors) cannot reach another worker's case."""
     import shutil
-    d = os.path.join(core.worker_dir(), ".probes")
+    d = os.path.join(core.process_dir(), ".probes")
     os.makedirs(d, exist_ok=True)
     stt = os.stat(path)
     dst = os.path.join(d, "%s-%d-%d.so" % (os.path.basename(os.path.dirname(os.path.dirname(path))), stt.st_size, int(stt.st_mtime)))
